@@ -35,6 +35,11 @@ class HoldProbe(aprobe.Probe):
         log = self.log
         log.nd += 1
         d = log.nd
+        if getattr(log, "fail_next", False):
+            # the consumer raises while the batch is pushed through the pipeline (a poison message, an outage of the sink)
+            log.fail_next = False
+            log.add("deliver_fail", d=d, x=[v.decode() if isinstance(v, bytes) else str(v) for v in x])
+            raise aprobe.ConsumerError("consumer refused batch %d" % d)
         self._retain_refs(metadata or [])
         log.add("deliver", d=d, x=[v.decode() if isinstance(v, bytes) else str(v) for v in x])
         if self.mode == "sync":
@@ -81,6 +86,12 @@ class Scenario:
                 ok = bool(vals) and len(set(ps)) == 1 and offs == list(range(offs[0], offs[0] + len(offs)))
                 self._d[e["d"]] = (ps[0] if vals else -1, offs[0] if vals else -1, offs[-1] if vals else -1)
                 self.ev("EmitBatch", p=self._d[e["d"]][0], lo=self._d[e["d"]][1], hi=self._d[e["d"]][2], exact=ok)
+            elif e["ev"] == "deliver_fail":
+                vals = e["x"]
+                ps = [int(v.split(":")[0]) for v in vals]
+                offs = [int(v.split(":")[1]) for v in vals]
+                self.failed_parts.add(ps[0] if vals else -1)
+                self.ev("FailBatch", p=ps[0] if vals else -1, lo=offs[0] if vals else -1, hi=offs[-1] if vals else -1)
             elif e["ev"] == "cons_done":
                 p, lo, hi = self._d[e["d"]]
                 self.ev("Process", p=p, lo=lo, hi=hi)
@@ -113,6 +124,7 @@ class Scenario:
             self._new_world()
             self._nlog = 0
             self._d = {}
+            self.failed_parts = set()
             params = {"bootstrap.servers": "x", "group.id": "g1"}
             if not cfg["latest"]:
                 params["auto.offset.reset"] = "earliest"
@@ -141,13 +153,17 @@ class Scenario:
         elif c == "a":
             if self.loop.quiescent() and self.loop.next_timer() is not None:
                 self.loop.advance()
+        elif c == "R":
+            self.log.fail_next = True        # the next batch that reaches the consumer is refused
         elif c in ("d", "D"):
-            if self.log.pending:
-                d = min(self.log.pending) if c == "d" else max(self.log.pending)
+            # proviso of C09: batches of one partition complete in order -- a refused batch never completes, so nothing
+            # behind it on its partition does either
+            cand = [x for x in self.log.pending if not (self.cfg["inorder"] and self._d[x][0] in self.failed_parts)]
+            if cand:
+                d = min(cand) if c == "d" else max(cand)
                 if self.cfg["inorder"]:
-                    # proviso of C09: batches of one partition complete in order
                     p = self._d[d][0]
-                    same = [x for x in self.log.pending if self._d[x][0] == p]
+                    same = [x for x in cand if self._d[x][0] == p]
                     d = min(same)
                 self.loop.do(finish, self.log, d)
         self._mark = len(self.events)
@@ -184,6 +200,8 @@ def run(cfg, schedule):
 
 def random_schedule(cfg, rng, n):
     al = ["P0", "P0", "P1", "S", "s", "s", "s", "a", "a", "d", "d", "D", "X", "N"]
+    if cfg.get("faults"):
+        al += ["R"]
     if cfg["maxparts"] > 2:
         al += ["P2"]
     out = ["P0"] if rng.random() < 0.5 else []
@@ -224,6 +242,11 @@ def main():
                 cfg2 = dict(cfg, cons="sync")
                 for _ in range(per // 12):
                     runs.append(run(cfg2, random_schedule(cfg2, rng, rng.randint(8, 18))))
+                # the pipeline refuses a batch now and then
+                for cons in ("hold", "sync"):
+                    cfg3 = dict(cfg, cons=cons, faults=True)
+                    for _ in range(per // 12):
+                        runs.append(run(cfg3, random_schedule(cfg3, rng, rng.randint(8, 22))))
     for i, r in enumerate(runs, start=1):
         r["id"] = i
     os.makedirs(a.out, exist_ok=True)
